@@ -655,7 +655,7 @@ static void arena_body(void* arg) {
   mi_heap_delete(h);
   g_ar_done.fetch_add(1, std::memory_order_release);
 }
-static size_t g_probe_single = 0; static int g_probe_whole = -1;
+static size_t g_probe_single = 0, g_probe_multi = 0; static int g_probe_whole = -1;
 static void arena_probe(void) {
   // after everything has been freed and every worker thread has terminated (true quiescence: a purge that runs in an exiting
   // thread temporarily claims the blocks it purges): the arena can be allocated completely again
@@ -679,6 +679,19 @@ static void arena_probe(void) {
   if (ps.size() != blocks)
     vf_trip("arena-capacity", "C14", "after all blocks were freed %zu single-block segments could be allocated from an arena of %zu blocks", ps.size(), blocks);
   mi_collect(true);
+  // (c) k-block segments until NULL (k >= 3: the search that may cross bitmap words).  First-fit inside each 64-block word gives at least
+  // floor(bits of the word / k) per word (a claim that crosses into a word takes fewer than k of its bits, i.e. costs it at most the one segment it provides);
+  // an empty arena that yields fewer has blocks that cannot be allocated
+  for (size_t k : { (size_t)3, (size_t)(5 + (g_arena_size / (32 * MiB)) % 4) }) {
+    std::vector<void*> qs;
+    for (;;) { void* p = mi_heap_malloc(h, k * 32 * MiB - 8 * MiB); if (p == nullptr) break; qs.push_back(p); if (qs.size() > blocks) break; }
+    size_t least = 0; for (size_t b = 0; b < blocks; b += 64) least += ((blocks - b < 64 ? blocks - b : 64) / k);
+    g_probe_multi += qs.size();
+    for (void* p : qs) mi_free(p);
+    mi_collect(true);
+    if (qs.size() < least || qs.size() > blocks / k)
+      vf_trip("arena-capacity", "C14", "after all blocks were freed %zu segments of %zu blocks each could be allocated from an empty arena of %zu blocks (at least %zu and at most %zu fit)", qs.size(), k, blocks, least, blocks / k);
+  }
   mi_heap_delete(h);
 }
 
@@ -705,11 +718,11 @@ static void result_body(FILE* f) {
   fprintf(f, "\"scenario\":\"%s\",\"variant\":\"%s\",\"seed\":%llu,\"threads\":%d,\"hash\":\"%016llx\",", C.scenario.c_str(), C.variant.c_str(), (unsigned long long)C.seed, C.threads,
           (unsigned long long)(st.sched_hash ^ (g_allocs.load() * 1000003ull) ^ (g_frees_remote.load() << 20)));
   fprintf(f, "\"mt\":{\"allocs\":%llu,\"alloc_null\":%llu,\"local_frees\":%llu,\"remote_frees\":%llu,\"sends\":%llu,\"recvs\":%llu,\"verified\":%llu,\"collects\":%llu,\"thread_starts\":%llu,\"thread_exits\":%llu,"
-             "\"heap_deletes\":%llu,\"claims\":%llu,\"claims_failed\":%llu,\"events\":%llu,\"max_live_in_replay\":%llu,\"abandoned_blocks_left\":%zu,\"final_checked\":%d,\"probe_single\":%zu,\"probe_whole\":%d,\"subproc_allocs_checked\":%llu,\"arena_inuse_end\":%ld},",
+             "\"heap_deletes\":%llu,\"claims\":%llu,\"claims_failed\":%llu,\"events\":%llu,\"max_live_in_replay\":%llu,\"abandoned_blocks_left\":%zu,\"final_checked\":%d,\"probe_single\":%zu,\"probe_multi\":%zu,\"probe_whole\":%d,\"subproc_allocs_checked\":%llu,\"arena_inuse_end\":%ld},",
           (unsigned long long)g_allocs.load(), (unsigned long long)g_alloc_null.load(), (unsigned long long)g_frees_local.load(), (unsigned long long)g_frees_remote.load(), (unsigned long long)g_sends.load(),
           (unsigned long long)g_recvs.load(), (unsigned long long)g_verified.load(), (unsigned long long)g_collects.load(), (unsigned long long)g_thread_starts.load(), (unsigned long long)g_thread_exits.load(),
           (unsigned long long)g_heap_deletes.load(), (unsigned long long)g_claims.load(), (unsigned long long)g_claim_fail.load(), (unsigned long long)g_events, (unsigned long long)g_max_live_replay,
-          g_abandoned_left, g_final_checked, g_probe_single, g_probe_whole, (unsigned long long)g_subproc_checked, g_arena_inuse_end);
+          g_abandoned_left, g_final_checked, g_probe_single, g_probe_multi, g_probe_whole, (unsigned long long)g_subproc_checked, g_arena_inuse_end);
   fprintf(f, "\"sched\":{\"mode\":%d,\"policy\":%d,\"points\":%llu,\"switches\":%llu,\"forced\":%llu,\"spurious_cas\":%llu,\"delays\":%llu,\"hash\":\"%016llx\",\"budget_exceeded\":%d,\"threads_created\":%d,\"delayed_stores\":%llu,\"loads_overtaking\":%llu},",
           C.sched.mode, C.sched.policy, (unsigned long long)st.points, (unsigned long long)st.switches, (unsigned long long)st.forced_switches, (unsigned long long)st.spurious, (unsigned long long)st.delays,
           (unsigned long long)st.sched_hash, st.budget_exceeded, st.threads_created, (unsigned long long)st.delayed_stores, (unsigned long long)st.loads_overtaking);
